@@ -16,6 +16,8 @@ import (
 	"github.com/blevesearch/vellum/regexp"
 	"github.com/golang/snappy"
 
+	"golang.org/x/tools/go/ssa"
+
 	"zsx/term"
 )
 
@@ -104,6 +106,7 @@ func (e *interpErr) Error() string { return e.msg }
 var (
 	errorRT  = reflect.TypeOf((*error)(nil)).Elem()
 	writerRT = reflect.TypeOf((*io.Writer)(nil)).Elem()
+	readerRT = reflect.TypeOf((*io.Reader)(nil)).Elem()
 	anyRT    = reflect.TypeOf((*any)(nil)).Elem()
 	valueRT  = anyRT
 	sliceRT  = reflect.TypeOf(Slice{})
@@ -126,6 +129,46 @@ func (w *writerAdapter) Write(p []byte) (int, error) {
 		return n, nil
 	}
 	return n, &interpErr{v: e, msg: "error from interpreted writer"}
+}
+
+type readerAdapter struct {
+	in  *Interp
+	itf Iface
+}
+
+func (r *readerAdapter) Read(p []byte) (int, error) {
+	m := r.in.Prog.LookupMethod(r.itf.T, nil, "Read")
+	if m == nil {
+		panic(abortPath{"unsupported", "reader adapter: no Read method on " + r.itf.T.String()})
+	}
+	buf := bytesToSlice(make([]byte, len(p)))
+	res := r.in.callFn(m, []Value{r.itf.V, buf}, nil, nil).(Tuple)
+	n := int(int64(res[0].(uint64)))
+	got := r.in.concBytes(Slice{buf.A[:n]}, "bytes read by library")
+	copy(p, got)
+	e := res[1].(Iface)
+	if e.T == nil {
+		return n, nil
+	}
+	if r.in.isIOEOF(e) {
+		return n, io.EOF
+	}
+	return n, &interpErr{v: e, msg: "error from interpreted reader"}
+}
+
+// isIOEOF reports whether e is the interpreted io.EOF value.
+func (in *Interp) isIOEOF(e Iface) bool {
+	iop := in.Prog.ImportedPackage("io")
+	if iop == nil {
+		return false
+	}
+	g, ok := iop.Members["EOF"].(*ssa.Global)
+	if !ok {
+		return false
+	}
+	cur := *in.global(g)
+	eq, _ := in.equals(cur, e).(bool)
+	return eq
 }
 
 func (in *Interp) toNative(v Value, rt reflect.Type) reflect.Value {
@@ -210,6 +253,9 @@ func (in *Interp) toNative(v Value, rt reflect.Type) reflect.Value {
 		}
 		if rt == writerRT || writerRT.Implements(rt) {
 			return reflect.ValueOf(&writerAdapter{in, itf})
+		}
+		if rt == readerRT {
+			return reflect.ValueOf(&readerAdapter{in, itf})
 		}
 		if rt == errorRT {
 			return reflect.ValueOf(&interpErr{v: itf, msg: "interpreted error"})
